@@ -1,9 +1,105 @@
-"""C18(b): truncated archives.  Filled in together with world B."""
+"""C18(b): a truncated json.gz / xml.gz (dobs, pobs) / csv.gz export is rejected rather than partially loaded.
+Every byte offset of the archive is tried (exhaustive per archive unless it exceeds the per-run budget)."""
+import os
+import random
+
+from .. import kernel, seams
+from ..world_archive import gen, env
+
+FORMATS = ["json.gz", "json.gz", "dobs.xml.gz", "pobs.xml.gz", "csv.gz", "dict.json.gz"]
 
 
 def gen_plan(rng, tier):
-    raise NotImplementedError
+    fmt = rng.choice(FORMATS)
+    plan = {"mode": "archive", "fmt": fmt, "kind": "archive", "seed": rng.getrandbits(32), "ops": [{"sample_seed": rng.getrandbits(30)}]}
+    if fmt in ("json.gz", "csv.gz"):
+        plan["items"] = [gen.gen_struct(rng, kinds=("obs", "list", "corr") if fmt == "csv.gz" else ("obs", "list", "array", "corr")) for _ in range(rng.randint(1, 2))]
+        plan["indent"] = rng.choice([0, 1])
+    elif fmt == "dict.json.gz":
+        plan["dict"] = gen.gen_dict(rng)
+    else:
+        from . import c12
+        p12 = c12.gen_plan(rng, tier)
+        plan["group"] = p12["groups"][0]
+    return plan
 
 
 def execute(plan, ctx):
-    raise NotImplementedError
+    import warnings
+    import pandas as pd
+    import pyerrors as pe
+    from . import c11, c12
+    warnings.simplefilter("ignore")
+    d = ctx.fresh_dir("arch")
+    clock = env.Clock()
+    pairs, faults = env.install(ctx, clock, env.Identity())
+    fmt = plan["fmt"]
+    comp = "archive/" + fmt
+    with seams.patched(pairs):
+        base = os.path.join(d, "arch")
+        try:
+            if fmt == "json.gz":
+                objs_ = [gen.build(s) for s in plan["items"]]
+                pe.input.json.dump_to_json(objs_, base, indent=plan["indent"], gz=True)
+                path = base + ".json.gz"
+                loader = lambda: pe.input.json.load_json(path, verbose=False, gz=True)  # noqa: E731
+            elif fmt == "dict.json.gz":
+                pe.input.json.dump_dict_to_json(gen.build_dict(plan["dict"]), base, gz=True)
+                path = base + ".json.gz"
+                loader = lambda: pe.input.json.load_json_dict(path, verbose=False, gz=True)  # noqa: E731
+            elif fmt == "csv.gz":
+                df, model = c11.make_frame(pe, pd, plan["items"], 2, plan["seed"])
+                if len(model["columns"]) == 3:
+                    return
+                pe.input.pandas.dump_df(df, base, gz=True)
+                path = base + ".csv.gz"
+                loader = lambda: pe.input.pandas.load_df(path, gz=True)  # noqa: E731
+            elif fmt == "dobs.xml.gz":
+                obsl = [c12.build_member(plan["group"], m) for m in plan["group"]["members"]]
+                pe.input.dobs.write_dobs(obsl, base, "nm", gz=True)
+                path = base + ".xml.gz"
+                loader = lambda: pe.input.dobs.read_dobs(path, gz=True)  # noqa: E731
+            else:
+                g = plan["group"]
+                g1 = dict(g, chains=[c for c in g["chains"] if c["name"].split("|")[0] == g["ens"][0]], ens=g["ens"][:1])
+                obsl = [c12.build_member(g1, m, pobs=True) for m in g["members"]]
+                pe.input.dobs.write_pobs(obsl, base, "nm", gz=True)
+                path = base + ".xml.gz"
+                k = len(g["ens"][0])
+                loader = lambda: pe.input.dobs.read_pobs(path, gz=True, separator_insertion=k)  # noqa: E731
+        except Exception as e:
+            ctx.probe("archive_export_raised_" + type(e).__name__)
+            return
+        data = seams.real_open(path, "rb").read()
+        try:
+            loader()
+        except Exception as e:
+            ctx.probe("complete_archive_not_readable_skipped")
+            return
+        n = len(data)
+        budget = 900 if ctx.tier == "quick" else 4000
+        if n <= budget:
+            offs = list(range(n))
+            exhaustive = True
+        else:
+            rnd = random.Random(kernel.H("offs", plan["ops"][0]["sample_seed"]))
+            offs = sorted(set(list(range(0, 40)) + list(range(n - 200, n)) + [rnd.randrange(n) for _ in range(budget - 240)]))
+            exhaustive = False
+        for off in reversed(offs):
+            os.truncate(path, off)
+            ctx.compared += 1
+            ctx.fault("crash_truncate")
+            try:
+                res = loader()
+            except Exception:
+                ctx.probe("reader_raised")
+                ctx.sig(comp, "raised", "tail" if off > n - 12 else ("head" if off < 12 else "body"))
+                continue
+            ctx.violation("c18.archive_partially_loaded", comp, "cut", "archive of %d bytes cut at byte %d was imported (%s) instead of being rejected" % (n, off, type(res).__name__))
+            ctx.sig(comp, "returned")
+            break
+        if exhaustive:
+            ctx.probe("files_enumerated_exhaustively")
+            ctx.probe("offsets_in_exhaustive_files", len(offs))
+        ctx.probe("archives_cut")
+        ctx.log("fault", "archive", fmt, n, len(offs))
